@@ -1160,6 +1160,32 @@ def shipped_side_conditions(chk):
 
 def replay_case(chk, c):
     """re-run one stored case (corpus or replay file) through the level it came from"""
+    if "contig" in c and "region" in c:          # stream in-region-direct
+        from aldy.sam import _in_region
+        from aldy.common import GRange
+
+        class Rec:
+            pass
+        r = Rec()
+        r.reference_id = -1 if c["unmapped"] else 0
+        r.reference_name = None if c["unmapped"] else c["contig"]
+        r.reference_start, r.reference_end = c["start"], c["end"]
+        b0, b1 = c["region"]
+        im = bool(_in_region(GRange(c["chr"], b0, b1), r, c["prefix"]))
+        exact = (not c["unmapped"]) and c["contig"] == c["prefix"] + c["chr"] and c["end"] is not None and \
+            (c["start"] <= b0 <= c["end"] or b0 <= c["start"] <= b1)
+        chk.case("in-region-direct", c, nontrivial=True, sample=c)
+        if im != exact:
+            chk.fail("ineligible", {"stream": "in-region-direct", "contig": "exact" if c["contig"] == c["prefix"] + c["chr"] else "similar"}, c,
+                     f"belongs to the locus = {exact}", f"_in_region = {im}")
+        return
+    if "header" in c and "chr" in c:             # stream chr-prefix-direct
+        from aldy.common import chr_prefix
+        im = chr_prefix(c["chr"], c["header"])
+        chk.case("chr-prefix-direct", c, nontrivial=True, sample=c)
+        if (c["chr"] in c["header"] or "chr" + c["chr"] in c["header"]) and im + c["chr"] not in c["header"]:
+            chk.fail("ineligible", {"stream": "chr-prefix-direct"}, c, "the name looked for is a contig of the header", f"prefix {im!r}")
+        return
     ctx = Ctx(yaml_text=c["gene"], name=c.get("gene_name", "GENX"), ident="g0")
     lvl = c["level"]
     if lvl == "parse":
